@@ -54,7 +54,9 @@ def gen_tree(rng: Any, *, max_depth: int = 4, max_fanout: int = 4, max_nodes: in
         shape = rng.choice(["none", "prepare", "start", "both", "both", "start"])
         node = {"path": path, "alias": alias, "has_prepare": shape in ("prepare", "both"), "has_start": shape in ("start", "both"),
                 "prepare": [], "start": [], "children": [], "via_config": rng.random() < 0.4, "methods_in_base": rng.random() < 0.3,
-                "naming": rng.choice(["class", "class", "class", "ref", "entrypoint"])}
+                "naming": rng.choice(["class", "class", "class", "ref", "entrypoint"]),
+                # start() written as an async generator under @context_teardown (the usual pattern in asphalt components)
+                "start_ctx_teardown": rng.random() < 0.3}
         nodes[path] = node
         counter[0] += 1
         if depth < max_depth:
@@ -410,6 +412,19 @@ class Run:
                 raise
             run.log("phase-end", path, phase=phase)
 
+        if phase == "start" and node.get("start_ctx_teardown"):
+            from asphalt.core import context_teardown
+
+            @context_teardown
+            async def generator_start(self: Any) -> Any:
+                await method(self)
+                # the rest of start() runs when the caller's context is torn down; the wrapper registers it right
+                # after this yield (no checkpoint in between)
+                run.log("teardown-reg", f"ct:{path}")
+                yield
+                run.log("teardown-run", f"ct:{path}")
+
+            return generator_start
         return method
 
     async def do_step(self, path: str, phase: str, idx: int, st: list[Any]) -> None:
